@@ -120,8 +120,8 @@ CHECKS = [
      "design_ref": "DESIGN.md section 3, C12",
      "note": "Assumes CPython determinism; a failed parse may leave garbage that the next call overwrites (the rule relies on re-initialisation, not clean-up).",
      "technique": "reset-dominance (must-assign) + write-effect inventory + structured balance analysis (custom ast checker)"},
-    {"id": "C14", "engine": "E4", "level": "proof",
-     "text": "Exhaustive obligation table: each of the 49 classes of _c_ast.cfg x (existence, __init__, __slots__, attr_names, children(), "
+    {"id": "C14", "engine": "E4", "level": "other",
+     "text": "(Not claimed as a proof of the whole property: the traversal clause has known findings D31 / D32 - nodes kept in plain attributes.) Exhaustive obligation table: each of the 49 classes of _c_ast.cfg x (existence, __init__, __slots__, attr_names, children(), "
              "__iter__, no extra members) is compared with the class shape extracted from c_ast.py; plus template-structure obligations on "
              "_ast_gen.py and dispatch / recursion-shape obligations on NodeVisitor.visit, generic_visit and Node.show. Visit counts on concrete "
              "trees follow by induction on the tree.",
